@@ -2834,6 +2834,9 @@ def groupby_reduce(
             chunks_cohorts = {}
 
         method = _choose_method(method, preferred_method, agg, by_, nax)
+        if method == "cohorts" and not chunks_cohorts:
+            # none of the expected groups is present: there is nothing to split into cohorts
+            method = "map-reduce"
 
         if agg.chunk[0] is None and method != "blockwise":
             raise NotImplementedError(
